@@ -180,7 +180,8 @@ class Alphabet:
 
 
 def full_alphabet():
-    leaves = [['t', 'a'], ['t', 'bb'], ['t', ' c'], ['t', ''], ['nil'], ['line'], ['softline'], ['hardline']]
+    # '\u65e5' is one character that occupies two terminal cells: columns are counted in characters
+    leaves = [['t', 'a'], ['t', 'bb'], ['t', ' c'], ['t', ''], ['t', '\u65e5'], ['nil'], ['line'], ['softline'], ['hardline']]
     unary = [
         lambda d: ['nest', 2, d], lambda d: ['group', d], lambda d: ['ab', d], lambda d: ['align', d],
         lambda d: ['hang', 1, d], lambda d: ['ann', 'T:KEYWORD_CONSTANT', d], lambda d: ['ann', 'other', d],
